@@ -84,6 +84,7 @@ class Ctx(object):
         self.wrap_cache = {}
         self.symvars = {}
         self.writes = []          # origins of mutated pre-existing objects
+        self.goal_mode = False    # True while a contract expression is evaluated as a proof goal
         self.alloc = 0
 
     # -- fresh symbols
@@ -824,7 +825,7 @@ class Exec(object):
         for g, expr in ghosts.items():
             env[g] = self.spec_eval(expr, env)
         for (nm, e) in invs:
-            ctx.emit("inv-init", "%s/%s/init" % (tag, nm), self.spec_bool(e, env), node.lineno)
+            ctx.emit("inv-init", "%s/%s/init" % (tag, nm), self.spec_bool(e, env, goal=True), node.lineno)
         # ---- havoc
         types_ = spec.get("types") or {}
         loopvars = set()
@@ -872,7 +873,7 @@ class Exec(object):
         if it is not None:
             env[kname] = mk_int(k + 1)
         for (nm, e) in invs:
-            ctx.emit("inv-step", "%s/%s/step" % (tag, nm), self.spec_bool(e, env), node.lineno)
+            ctx.emit("inv-step", "%s/%s/step" % (tag, nm), self.spec_bool(e, env, goal=True), node.lineno)
         if dec:
             v1 = zint(self.spec_eval(dec, env))
             ctx.emit("decr", "%s/decreases" % tag, z3.And(v0 >= 0, v1 < v0), node.lineno)
@@ -927,8 +928,13 @@ class Exec(object):
         finally:
             self.frames.pop()
 
-    def spec_bool(self, expr, env):
-        v = self.spec_eval(expr, env)
+    def spec_bool(self, expr, env, goal=False):
+        old = self.ctx.goal_mode
+        self.ctx.goal_mode = goal
+        try:
+            v = self.spec_eval(expr, env)
+        finally:
+            self.ctx.goal_mode = old
         t = self.truth(v)
         if isinstance(t, bool):
             return z3.BoolVal(t)
@@ -1332,16 +1338,35 @@ class Exec(object):
             base = a.off + a.length
             for i in range(nb):
                 arr = z3.Store(arr, z3.simplify(base + i), b.at(i))
-            return SStr(z3.simplify(a.length + nb), arr, a.off, is_bytes=a.is_bytes or b.is_bytes)
+            return SStr(z3.simplify(a.length + nb), arr, a.off, is_bytes=a.is_bytes or b.is_bytes,
+                        maxlen=(a.max_len() + nb) if a.max_len() is not None else None)
         na = a.known_len()
         if na is not None:
             arr = b.arr
             off = z3.simplify(b.off - na)
             for i in range(na):
                 arr = z3.Store(arr, z3.simplify(off + i), a.at(i))
-            return SStr(z3.simplify(b.length + na), arr, off, is_bytes=a.is_bytes or b.is_bytes)
+            return SStr(z3.simplify(b.length + na), arr, off, is_bytes=a.is_bytes or b.is_bytes,
+                        maxlen=(b.max_len() + na) if b.max_len() is not None else None)
         if a.opaque or b.opaque:
             return self.opaque_str()
+        mb = b.max_len()
+        if mb is not None and mb <= 24:
+            # right operand of bounded length: case split on its length
+            r = None
+            for l in range(mb, -1, -1):
+                bl = SStr(z3.IntVal(l), b.arr, b.off, is_bytes=b.is_bytes)
+                cand = self.str_concat(a, bl) if l else a
+                r = cand if r is None else self.merge(b.length == l, cand, r)
+            return r
+        ma = a.max_len()
+        if ma is not None and ma <= 24:
+            r = None
+            for l in range(ma, -1, -1):
+                al = SStr(z3.IntVal(l), a.arr, a.off, is_bytes=a.is_bytes)
+                cand = self.str_concat(al, b) if l else b
+                r = cand if r is None else self.merge(a.length == l, cand, r)
+            return r
         raise Unsupported("concatenation of two strings of unknown length")
 
     def str_repeat(self, s, n):
